@@ -186,7 +186,8 @@ func cnSchema(db *cnDB, rec *cnRec) *graphql.Schema {
 				// an ordinary failure whose text mentions a cancellation it wraps: not a cancellation of this run
 				return fmt.Errorf("secret-upstream-gave-up: %w", context.Canceled)
 			case 5:
-				// the resolver itself reports a cancellation (an upstream call was cancelled): the subscription ends quietly
+				// the resolver itself reports a cancellation (an upstream call of its own was cancelled) while the run goes on:
+				// an ordinary failure (finding C16-4: an initially failing subscription of this kind used to end without a word)
 				return context.Canceled
 			case 6:
 				// an application error with a text for the log and another one for the client
